@@ -799,6 +799,8 @@ func vfMetaBlock(kind string, n int, sid uint32, table []int) []byte {
 	switch kind {
 	case "ok", "okcont":
 		blk = append(append([]byte{}, vfMetaPseudo...), vfHIncr(en, ev)...)
+	case "sizeupd":
+		blk = append(append([]byte{0x3f, 0xe1, 0x1f}, vfMetaPseudo...), vfHIncr(en, ev)...) // dynamic table size update to 4096 (the size in force), then as ok
 	case "upper":
 		blk = append(append(append([]byte{}, vfMetaPseudo...), vfHLit("X-Upper", "1")...), vfHIncr(en, ev)...)
 	case "badvalue":
